@@ -1,7 +1,8 @@
 (* Wire decoding for C09: event histories in, final state (+ what the Spec demands) out.  No proofs here. *)
 From Coq Require Import List ZArith Bool.
 Import ListNotations.
-From Verif Require Import Val Refs RefsSpec.
+From Verif Require Import Val Refs RefsSpec RefsDoc.
+From Verif Require Counters CounterSyntax.
 Local Open Scope Z_scope.
 
 Definition get_opt {A} (f : val -> option A) (v : val) : option (option A) :=
@@ -46,11 +47,61 @@ Definition demands (es : list event) (st : state) : val :=
                   VL [VI (fst (fst e)); VI (snd (fst e)); of_res (resolution att es (fst (fst e)) (snd (fst e)))]) (idrefs st));
        VL (map (fun e : str * obj => VL [ofZs (fst e); VI (snd e)]) att) ].
 
+(* ---- documents: numbering events of Model/Counters.v + labels / references (Model/RefsDoc.v) -------------- *)
+Definition inl_of (v : val) : option inl :=
+  match v with
+  | VL [VI 0; l] => match getZs l with Some l => Some (NLabel l) | None => None end
+  | VL [VI 1; VI r; VI k; l] => match getZs l with Some l => Some (NRef r k l) | None => None end
+  | VL [VI 2] => Some NOpen
+  | VL [VI 3] => Some NClose
+  | _ => None
+  end.
+
+Definition cevent_of (v : val) : option Counters.event :=
+  match v with
+  | VL [VI 0; nm; b] => match getZs nm, getB b with Some nm, Some b => Some (Counters.ESec nm b) | _, _ => None end
+  | VL [VI 1] => Some Counters.EEquation
+  | VL [VI 2; VL rows] => match mapM getB rows with Some rows => Some (Counters.EEqnarray rows) | None => None end
+  | VL [VI 3; b] => match getB b with Some b => Some (Counters.ECaption b) | None => None end
+  | VL [VI 4; nm] => match getZs nm with Some nm => Some (Counters.EThm nm) | None => None end
+  | VL [VI 5; nm; sh; wi; b] =>
+      match getZs nm, get_opt getZs sh, get_opt getZs wi, getB b with
+      | Some nm, Some sh, Some wi, Some b => Some (Counters.ENewTheorem nm sh wi b)
+      | _, _, _, _ => None
+      end
+  | VL [VI 6; b] => match getB b with Some b => Some (Counters.EBeginList b) | None => None end
+  | VL [VI 7] => Some Counters.EEndList
+  | VL [VI 8] => Some Counters.EItem
+  | _ => None
+  end.
+
+Definition jevent_of (v : val) : option (@jevent Counters.event) :=
+  match v with
+  | VL [VI 0; i] => match inl_of i with Some i => Some (JInl i) | None => None end
+  | VL [VI 1; ce; VL inner] =>
+      match cevent_of ce, mapM (fun x => match x with VL l => mapM inl_of l | _ => None end) inner with
+      | Some ce, Some inner => Some (JNum ce inner)
+      | _, _ => None
+      end
+  | _ => None
+  end.
+
+Definition run_doc (cls depth : Z) (d : list (@jevent Counters.event)) : val :=
+  match translate_c08 cls depth d with
+  | Some (es, os) => let st := run es in VL (dump st ++ [demands es st])
+  | None => v_crash 0          (* the numbering machine stopped (Crash / Fuel of Model/Counters.v) *)
+  end.
+
 Definition run_case (v : val) : val :=
   match v with
   | VL [VI 0; VL hs] =>      (* a list of histories (a document and its variants with the references moved) *)
       match mapM (fun h => match h with VL evs => mapM event_of evs | _ => None end) hs with
       | Some ess => VL (map (fun es => let st := run es in VL (dump st ++ [demands es st])) ess)
+      | None => v_bad_input
+      end
+  | VL [VI 3; VI cls; VI depth; VL ds] =>   (* documents (and their variants) given as numbering events + labels / references *)
+      match mapM (fun d => match d with VL js => mapM jevent_of js | _ => None end) ds with
+      | Some ds => VL (map (run_doc cls depth) ds)
       | None => v_bad_input
       end
   | VL [VI 2; VL ss] =>
